@@ -939,22 +939,7 @@ func propC16(c *Ctx) string {
 			r.Check(fi.Name+":give(dequeueTokens)", allowedGive[fi.Name], fi.Decl.Pos(), len(in.Traces), fmt.Sprintf("%d return sites; allowed only in dequeuer (QoS 0), PUBACK/PUBCOMP handler and the initial fill", len(gives)))
 		}
 	}
-	// PUBREC returns none (checked above by the allow-list); PUBACK/PUBCOMP handler returns one on every success path
-	for _, hnd := range []*FuncInfo{ackH, compH} {
-		in := c.traces(hnd)
-		ok, n := true, 0
-		var w *Trace
-		for _, t := range in.Traces {
-			if !t.success() {
-				continue
-			}
-			n++
-			if n, blocking := giveAttempts(c, hnd, t, v.fDequeueTokens, 0); n != 1 || blocking {
-				ok, w = false, t
-			}
-		}
-		r.Check(hnd.Name+":one non-blocking return per completed handshake", ok && n > 0, hnd.Decl.Pos(), len(in.Traces), "a completed PUBACK/PUBCOMP must give exactly one window slot back, without blocking", c.witness(w)...)
-	}
+	c16AckReturn(c, v, r, ackH, compH)
 	// dequeuer per QoS
 	rt := c.Rule("C16/TAKE", "TRACE", "dequeuer iteration: one take (blocking with timeout+dying escape, or fast path) before Backend.Dequeue and before send(PUBLISH); QoS 0 returns the slot after send→ok, QoS>0 never; resend loop: one non-blocking take per resent packet before its send", 4)
 	mf := c.msgFields()
@@ -1175,6 +1160,7 @@ func propC20(c *Ctx) string {
 	c20Suback(c, v)
 	c20AckTokens(c, v)
 	c07ReqTokens(c, v, "C20")
+	c20AuthTable(c, v)
 	c.NotDecide("correlation under pipelining and schedules at runtime (rests on FIFO ackQueue + single acker)", "custom backends that never call the ack", "the engine's connect timeout (timing)")
 	c.Assume("packet decoding yields one of the 14 concrete packet types (C01/HDR)")
 	return c20Explanation
@@ -1773,5 +1759,118 @@ func c07ReqTokens(c *Ctx, v *vocab, prop string) {
 					fmt.Sprintf("%d return site(s) outside the acker / the initial fill: the window grows beyond its configured size", gives))
 			}
 		}
+	}
+}
+
+// c20AuthTable: MemoryBackend.Authenticate with configured credentials accepts a login only when the user is listed
+// (the comma-ok of the credentials lookup) and the password equals the listed one. A lookup without comma-ok compares
+// with the zero value: an unknown user with an empty password is let in.
+func c20AuthTable(c *Ctx, v *vocab) {
+	r := c.Rule("C20/AUTHTABLE", "TRACE(table)", "MemoryBackend.Authenticate: accepted ⇒ no credentials configured, or the credentials lookup reported the user present (comma-ok) and the password compared equal", 1)
+	fi := c.mustFunc(r, "broker.(*MemoryBackend).Authenticate")
+	creds := c.P.Field("broker", "MemoryBackend", "Credentials")
+	if fi == nil || creds == nil {
+		r.Undecided("broker.(*MemoryBackend).Authenticate", 0, "function or Credentials field not found")
+		return
+	}
+	in := c.traces(fi)
+	h := &Interp{P: c.P, Info: fi.Pkg.TypesInfo}
+	// the comma-ok variable(s) of `pw, ok := m.Credentials[user]`
+	okVars := map[types.Object]bool{}
+	ast.Inspect(fi.Decl.Body, func(m ast.Node) bool {
+		if as, ok := m.(*ast.AssignStmt); ok && len(as.Lhs) == 2 && len(as.Rhs) == 1 {
+			if ix, ok := ast.Unparen(as.Rhs[0]).(*ast.IndexExpr); ok && h.objOf(ix.X) == types.Object(creds) {
+				if o := h.rawObjOf(as.Lhs[1]); o != nil {
+					okVars[o] = true
+				}
+			}
+		}
+		return true
+	})
+	var bad *Trace
+	why := ""
+	nAcc := 0
+	for _, t := range in.Traces {
+		if t.Exit != ExitReturn || len(t.Results) != 2 || t.retErr() == 1 {
+			continue
+		}
+		open_, present := false, false
+		var okVar types.Object
+		for _, e := range t.Ev {
+			if (e.Kind == EvCond || e.Kind == EvOutcome) && e.Var == types.Object(creds) && e.Nilness == -1 {
+				open_ = true
+			}
+			if e.Kind == EvOutcome && e.DefCall != nil && e.DefCall.Kind == EvAssert && e.DefCall.CommaOk {
+				if ix, ok := ast.Unparen(e.DefCall.RHS).(*ast.IndexExpr); ok && h.objOf(ix.X) == types.Object(creds) {
+					okVar = e.Var
+					if e.Outcome {
+						present = true
+					}
+				}
+			}
+			if e.Kind == EvAssert && e.CommaOk {
+				if ix, ok := ast.Unparen(e.RHS).(*ast.IndexExpr); ok && h.objOf(ix.X) == types.Object(creds) {
+					// remember the ok variable of `pw, ok := creds[user]` (second left-hand side)
+					if as, ok := e.Node.(*ast.AssignStmt); ok && len(as.Lhs) == 2 {
+						okVar = h.rawObjOf(as.Lhs[1])
+					}
+				}
+			}
+		}
+		res := t.RVals[0]
+		switch {
+		case res.K == VBool && !res.B:
+			continue
+		case res.K == VBool && res.B:
+			nAcc++
+			if !open_ && !present {
+				bad, why = t, "a path accepts the login without the credentials lookup having reported the user present"
+			}
+		default:
+			// an expression: it must be a conjunction that contains the comma-ok variable
+			nAcc++
+			conj := false
+			var walk func(e ast.Expr)
+			walk = func(e ast.Expr) {
+				switch x := ast.Unparen(e).(type) {
+				case *ast.BinaryExpr:
+					if x.Op == token.LAND {
+						walk(x.X)
+						walk(x.Y)
+					}
+				case *ast.Ident:
+					if o := h.rawObjOf(x); o != nil && (o == okVar || okVars[o]) {
+						conj = true
+					}
+				}
+			}
+			walk(t.Results[0])
+			if !open_ && !conj {
+				bad, why = t, "the returned verdict does not include the comma-ok of the credentials lookup"
+			}
+		}
+	}
+	r.Check(fi.Name+":accepted⇒listed", bad == nil && nAcc > 0, fi.Decl.Pos(), len(in.Traces), why, c.witness(bad)...)
+}
+
+// c16AckReturn: the PUBACK / PUBCOMP handler gives exactly one window slot back per completed handshake and never
+// blocks doing so (a second, stray acknowledgement finds the window full: a blocking return would park the
+// connection's only reader for ever).
+func c16AckReturn(c *Ctx, v *vocab, r *Rule, ackH, compH *FuncInfo) {
+	// PUBREC returns none (checked above by the allow-list); PUBACK/PUBCOMP handler returns one on every success path
+	for _, hnd := range []*FuncInfo{ackH, compH} {
+		in := c.traces(hnd)
+		ok, n := true, 0
+		var w *Trace
+		for _, t := range in.Traces {
+			if !t.success() {
+				continue
+			}
+			n++
+			if n, blocking := giveAttempts(c, hnd, t, v.fDequeueTokens, 0); n != 1 || blocking {
+				ok, w = false, t
+			}
+		}
+		r.Check(hnd.Name+":one non-blocking return per completed handshake", ok && n > 0, hnd.Decl.Pos(), len(in.Traces), "a completed PUBACK/PUBCOMP must give exactly one window slot back, without blocking", c.witness(w)...)
 	}
 }
